@@ -391,6 +391,15 @@ bool AnalyserModel::needAcothFunction() const
     return mPimpl->mNeedAcothFunction;
 }
 
+#ifdef HSORBY_LIBCELLML_VERIF
+static VerifEquivalenceCacheTrace verifEquivalenceCacheTrace = nullptr;
+
+void verifSetEquivalenceCacheTrace(VerifEquivalenceCacheTrace callback)
+{
+    verifEquivalenceCacheTrace = callback;
+}
+#endif
+
 bool AnalyserModel::areEquivalentVariables(const VariablePtr &variable1,
                                            const VariablePtr &variable2)
 {
@@ -416,10 +425,20 @@ bool AnalyserModel::areEquivalentVariables(const VariablePtr &variable1,
     auto cacheKey = mPimpl->mCachedEquivalentVariables.find(key);
 
     if (cacheKey != mPimpl->mCachedEquivalentVariables.end()) {
+#ifdef HSORBY_LIBCELLML_VERIF
+        if (verifEquivalenceCacheTrace != nullptr) {
+            verifEquivalenceCacheTrace(variable1.get(), variable2.get(), &key, sizeof(key), true, cacheKey->second);
+        }
+#endif
         return cacheKey->second;
     }
 
     auto res = libcellml::areEquivalentVariables(variable1, variable2);
+#ifdef HSORBY_LIBCELLML_VERIF
+    if (verifEquivalenceCacheTrace != nullptr) {
+        verifEquivalenceCacheTrace(variable1.get(), variable2.get(), &key, sizeof(key), false, res);
+    }
+#endif
 
     mPimpl->mCachedEquivalentVariables.emplace(key, res);
 
